@@ -575,6 +575,22 @@ func dbExec(ops []string) (dops []string, res []string) {
 						r.mu.Lock()
 						r.log(fmt.Sprintf("set %d %s %s", idx, t[2], t[3]), errName(e))
 						r.mu.Unlock()
+						if len(t) > 4 {
+							// a handle that escaped an earlier View / Update closure is used while this closure runs:
+							// it stays finished (ErrDiscardedTxn, no effect), whatever the engine recycles internally
+							if j, _ := strconv.Atoi(t[4]); j < idx && txns[j] != nil {
+								e2 := txns[j].Set("a", []byte("late"))
+								_, f2 := txns[j].Get("a")
+								r.mu.Lock()
+								r.log(fmt.Sprintf("set %d %s %s", j, hxs("a"), hxs("late")), errName(e2))
+								if f2 {
+									r.log("expectok a finished handle reads nothing", "SPEC-VIOLATION: Get on a finished transaction handle returned a value")
+								} else {
+									r.log("expectok a finished handle reads nothing", "ok")
+								}
+								r.mu.Unlock()
+							}
+						}
 						switch mode {
 						case "err":
 							return fmt.Errorf("closure failed")
@@ -704,6 +720,7 @@ func dbGen(r *rand.Rand, n int, length int, withReopen bool) []Case {
 			open   bool
 		}
 		var txs []*tx
+		var closures []int // transactions that lived inside an Update closure (their handles escaped)
 		nextIdx := 0
 		begin := func(update bool) *tx {
 			t := &tx{idx: nextIdx, update: update, open: true}
@@ -786,8 +803,14 @@ func dbGen(r *rand.Rand, n int, length int, withReopen bool) []Case {
 				mode := []string{"ok", "err", "panic"}[r.Intn(3)]
 				t := &tx{idx: nextIdx, update: true, open: false}
 				nextIdx++
+				stale := ""
+				if len(closures) > 0 && r.Intn(2) == 0 {
+					stale = fmt.Sprintf(" %d", closures[r.Intn(len(closures))])
+					tags["stale-handle-inside-closure"] = true
+				}
+				closures = append(closures, t.idx)
 				txs = append(txs, t)
-				ops = append(ops, fmt.Sprintf("upd %s %s %s", mode, hxs(pickKey(r, nk)), hx(pickValue(r, i))))
+				ops = append(ops, fmt.Sprintf("upd %s %s %s%s", mode, hxs(pickKey(r, nk)), hx(pickValue(r, i)), stale))
 				tags["update-closure-"+mode] = true
 			case x < 90:
 				ops = append(ops, "bg")
